@@ -18,7 +18,7 @@ SER_VIEWS = ("serialize", "serialization_schema", "graphql_output")
 DESER_VIEWS = ("deserialization_schema", "graphql_input")
 VIEWS = SER_VIEWS + DESER_VIEWS
 
-PRELUDE = """from dataclasses import dataclass, field
+PRELUDE = """from dataclasses import dataclass, field, InitVar
 from apischema import alias, order, serialized
 from apischema.graphql import resolver
 from apischema.metadata import skip
@@ -89,7 +89,7 @@ def present(prog, view):
                 out.append(e)
         else:
             p = d.get("present", "both")
-            if p == "both" or (p in ("ser", "readonly") and view in SER_VIEWS) or (p == "deser" and view in DESER_VIEWS):
+            if p == "both" or (p in ("ser", "readonly") and view in SER_VIEWS) or (p in ("deser", "initvar") and view in DESER_VIEWS):
                 out.append(e)
     return out
 
@@ -271,7 +271,7 @@ def source(prog, uid):
             elif p == "deser":
                 md.append("skip(serialization=True)")
             args = ["default=0"] + (["init=False"] if p == "readonly" else []) + (["metadata=" + " | ".join(md)] if md else [])
-            lines.append(f"    {f}: int = field({', '.join(args)})")
+            lines.append(f"    {f}: {'InitVar[int]' if p == 'initvar' else 'int'} = field({', '.join(args)})")  # an InitVar only exists in the deserialization views
             declared.append(f)
         for m in c["methods"]:
             o = spec_src(prog["elements"][m]["meta"], declared if prog.get("ref_style") == "object" else ())
@@ -283,6 +283,8 @@ def source(prog, uid):
                 post.append(f"resolver({('order=' + ostr + ', ') if ostr else ''}owner={names[i]})({names[i]}.{m})")
             lines.append(f"    def {m}(self) -> int:")
             lines.append("        return 100")
+        if any(prog["elements"][f].get("present") == "initvar" for cc in prog["classes"][: i + 1] for f in cc["fields"]):
+            lines.append("    def __post_init__(self, *init_vars):\n        pass")
         if not c["fields"] and not c["methods"]:
             lines.append("    pass")
         lines.append("")
